@@ -92,11 +92,22 @@ def items(tier):
     add("sysofeq", "n3-freeonly", n=3, free=[0, 1], given="free", mclass="general", sparse=True)
     add("sysofeq", "n3-presonly", n=3, free=[1, 2], given="prescribed", mclass="general", sparse=True)
     add("sysofeq", "n3-sym", n=3, free=[0, 2], mclass="symmetric", sparse=True)
+    # index sets in the user's own (not ascending) order: b_f and x_p follow that order
+    add("sysofeq", "n3-f20-unsorted", n=3, free=[2, 0], mclass="general", sparse=True)
+    add("sysofeq", "n3-p20-unsorted", n=3, free=[1], pres=[2, 0], mclass="general", sparse=False)
+    add("sysofeq", "n4-f30-p21-unsorted", n=4, free=[3, 0], pres=[2, 1], mclass="general", sparse=True)
+    add("sysofeq", "n3-f20-freeonly-unsorted", n=3, free=[2, 0], given="free", mclass="general", sparse=True)
+    add("sysofeq", "n3-p20-presonly-unsorted", n=3, free=[1], pres=[2, 0], given="prescribed", mclass="general", sparse=True)
     for (n, main, free) in [(3, [0], [1, 2]), (3, [0, 2], [1]), (3, [1], [0]), (4, [0], [1, 2]), (4, [0, 3], [1, 2])] + \
             ([] if q else [(4, [2], [0, 1, 3])]):
         for sparse in (True, False):
             add("statcond", "n%d-m%s-f%s-%s" % (n, "".join(map(str, main)), "".join(map(str, free)), "sp" if sparse else "de"),
                 n=n, main=main, free=free, sparse=sparse)
+    # non-symmetric matrices (the Schur complement A_mm - A_mf A_ff^-1 A_fm is defined for every class)
+    for (n, main, free) in [(3, [0], [1, 2]), (3, [0, 2], [1]), (4, [0, 3], [1, 2]), (4, [3, 0], [2, 1])]:
+        for sparse in (True, False):
+            add("statcond", "n%d-m%s-f%s-%s-general" % (n, "".join(map(str, main)), "".join(map(str, free)), "sp" if sparse else "de"),
+                n=n, main=main, free=free, sparse=sparse, mclass="general")
     return out
 
 
@@ -164,7 +175,7 @@ def sc_sysofeq(V, P, cfg):
     xp = np.asarray(setup.inputs[2].state)
     n = cfg["n"]
     free = np.array(cfg["free"], dtype=int)
-    pres = np.array([i for i in range(n) if i not in cfg["free"]], dtype=int)
+    pres = np.array(cfg["pres"] if cfg.get("pres") else [i for i in range(n) if i not in cfg["free"]], dtype=int)
     m.response()
     x, b = m.sig_out[0].state, m.sig_out[1].state
     if P is not None:
@@ -242,7 +253,7 @@ def replay(cfg, label, env, case):
         bf, xp = np.asarray(setup.inputs[1].state), np.asarray(setup.inputs[2].state)
         n = cfg["n"]
         free = np.array(cfg["free"], dtype=int)
-        pres = np.array([i for i in range(n) if i not in cfg["free"]], dtype=int)
+        pres = np.array(cfg["pres"] if cfg.get("pres") else [i for i in range(n) if i not in cfg["free"]], dtype=int)
         m.response()
         x, b = np.asarray(m.sig_out[0].state), np.asarray(m.sig_out[1].state)
         sc = max(1.0, float(np.max(np.abs(b))))
